@@ -1055,6 +1055,41 @@ func serving(c *an.Ctx, wr *watchRoles, rule string) {
 	if wr.evLoop != nil {
 		// loop exits
 		loop := wr.evLoop
+		// semantic fallback for exits that are not recognised by their guard: explore one pass of the loop
+		// (helpers of the package inlined) in the world where the watcher is not closed and every receive
+		// from an fsnotify channel reports the channel open — no path may leave the loop in that world
+		staysWhileOpen := func() (bool, string) {
+			ex := &an.Explorer{P: p, NoReturn: noReturn, MaxDepth: 3,
+				Inline: func(f *ssa.Function) bool { return wr.inW(f) && f != wr.loopFn && f != wr.handle }}
+			loop.Bound(ex)
+			ex.AtomSt = func(v ssa.Value, st *an.State) (an.AVal, bool) {
+				if e, ok := v.(*ssa.Extract); ok && e.Index == 1 && isRecvOK(v) {
+					return an.ABool(true), true
+				}
+				if u, ok := v.(*ssa.UnOp); ok && u.Op == token.MUL && an.FieldProv(u) == "Watcher.isClosed" {
+					return an.ABool(false), true
+				}
+				return an.AVal{}, false
+			}
+			entry := loop.BodyEntry()
+			if entry == nil {
+				return false, "the loop has no body"
+			}
+			outs := ex.Run(wr.loopFn, entry, loop.Header, nil)
+			if ex.Exhausted || len(outs) == 0 {
+				return false, "the exploration of one pass did not finish"
+			}
+			for _, o := range outs {
+				if o.End == "stop" && o.StopBlock == loop.Header {
+					continue
+				}
+				if o.End == "bound" {
+					continue
+				}
+				return false, "a path leaves the loop (" + o.End + ") although the watcher and the channels are open"
+			}
+			return true, ""
+		}
 		{
 			for _, x := range exitEdges(loop) {
 				from := x[0]
@@ -1082,6 +1117,11 @@ func serving(c *an.Ctx, wr *watchRoles, rule string) {
 						if !g.Outcome {
 							ok, why = true, "channel closed"
 						}
+					}
+				}
+				if !ok {
+					if stays, _ := staysWhileOpen(); stays {
+						ok, why = true, "with the watcher and the channels open no path of a pass leaves the loop (explored)"
 					}
 				}
 				pos := from.Instrs[len(from.Instrs)-1].Pos()
